@@ -73,6 +73,7 @@ class PatchSpec:
         self.series_line = None
         self.text = None
         self.early_poison = False   # a poisoned file patch is followed by another one for the same file
+        self.prefix_style = None    # how the components that -pN strips are spelled ("plain" | "double-slash")
 
     def fails(self):
         return any(op.poison for op in self.ops)
@@ -88,7 +89,7 @@ class Workspace:
 
     def describe(self):
         return {"seed": self.seed, "files": sorted(self.t0), "fail_at": self.fail_at,
-                "patches": [{"name": p.name, "strip": p.strip, "reverse": p.reverse, "git": p.git, "ops": [o.describe() for o in p.ops]} for p in self.patches]}
+                "patches": [{"name": p.name, "strip": p.strip, "reverse": p.reverse, "git": p.git, "prefix": p.prefix_style, "ops": [o.describe() for o in p.ops]} for p in self.patches]}
 
 
 # ----------------------------------------------------------------------------
@@ -147,10 +148,16 @@ def mutate_content(r, data, max_edits=4):
 # rendering
 
 
+PREFIX_STYLE = ["plain"]   # set by render_patch for the patch being rendered
+
+
 def _prefix(strip, side):
     if strip == 0:
         return ""
     comps = ["x%d" % i for i in range(strip - 1)] + [side]
+    if PREFIX_STYLE[0] == "double-slash":
+        # a run of slashes is one separator: -pN still removes exactly N components
+        return "//".join(comps) + "//"
     return "/".join(comps) + "/"
 
 
@@ -259,10 +266,16 @@ def render_patch(p, rnd):
     parts = []
     if rnd.random() < 0.3:
         parts.append(b"From: someone\nSubject: %s\n\nSome description.\n---\n file | 2 +-\n\n" % p.name.encode())
-    for i, op in enumerate(p.ops):
-        if not p.git and i > 0 and rnd.random() < 0.3:
-            op.prelude = b"Index: %s\n===================================================================\n" % op.path.encode("utf-8", "surrogateescape")
-        parts.append(render_op(op, p.strip, p.reverse, p.git, rnd))
+    if getattr(p, "prefix_style", None) is None:
+        p.prefix_style = "double-slash" if (p.strip >= 1 and rnd.random() < 0.07) else "plain"
+    PREFIX_STYLE[0] = p.prefix_style
+    try:
+        for i, op in enumerate(p.ops):
+            if not p.git and i > 0 and rnd.random() < 0.3:
+                op.prelude = b"Index: %s\n===================================================================\n" % op.path.encode("utf-8", "surrogateescape")
+            parts.append(render_op(op, p.strip, p.reverse, p.git, rnd))
+    finally:
+        PREFIX_STYLE[0] = "plain"
     p.text = b"".join(parts)
     opts = []
     if p.strip != 1:
